@@ -1194,3 +1194,230 @@ Proof.
       apply Forall_forall. intros f _. apply resolve_field_csubs. }
     unfold select_bound. fold (sumN (map count_subs (re_fields q))). lia.
 Qed.
+
+(* ------------------------------------------------------------------------------------------ *)
+(** * the master statement: outside the listed classes the model satisfies the property's oracle *)
+
+Lemma Forall2_map_same : forall A B C (f : A -> B) (g : A -> C) (R : B -> C -> Prop) l,
+  (forall x, In x l -> R (f x) (g x)) -> Forall2 R (map f l) (map g l).
+Proof.
+  induction l as [|a l IH]; intros H; cbn [map]; constructor.
+  - apply H. left. reflexivity.
+  - apply IH. intros x Hx. apply H. right. exact Hx.
+Qed.
+
+Lemma default_parallelism_pos : default_parallelism <> 0%N.
+Proof. discriminate. Qed.
+
+Lemma mutation_step_ok : forall m, k1_mutation m = false ->
+  mutate_outcome m <> OPanic /\ (mutation_valid m = true -> mutate_outcome m = OOk).
+Proof.
+  intros m Hk. split.
+  - intro Hp. rewrite (mutate_panics_only_in_k1 m Hp) in Hk. discriminate.
+  - intro Hv. apply valid_mutation_executes; assumption.
+Qed.
+
+Lemma row_step_ok : forall r, k2_row r = false -> verify_row r <> OPanic /\ (false = true -> verify_row r = OOk).
+Proof.
+  intros r Hk. split; [|discriminate]. intro Hp. rewrite (verify_row_panics_only_in_k2 r Hp) in Hk. discriminate.
+Qed.
+
+Theorem run_spec_outside_known : forall c, known_C14 c = [] -> spec_C14 c (run_C14 c) = true.
+Proof.
+  intros c Hk. destruct c as [m|ms|k pok|r|rs|dm qs|dm q|s]; cbn [known_C14 spec_C14 run_C14] in *.
+  - apply flag_nil in Hk.
+    apply (pool_run_ok [mutation_valid m] [mutate_outcome m] _ default_parallelism_pos).
+    constructor; [apply mutation_step_ok; exact Hk|constructor].
+  - apply flag_nil in Hk.
+    apply (pool_run_ok (map mutation_valid ms) (map mutate_outcome ms) _ default_parallelism_pos).
+    apply Forall2_map_same. intros m Hm. apply mutation_step_ok. apply (existsb_false_forall _ _ _ Hk m Hm).
+  - apply flag_nil in Hk. destruct k as [|b k]; [discriminate|].
+    destruct (import_key (b :: k) pok) eqn:E; cbn [outcome_code].
+    + reflexivity.
+    + destruct (key_wellformed (b :: k) pok) eqn:Ew; [|reflexivity].
+      rewrite (key_wellformed_imports _ _ Ew) in E. discriminate.
+    + apply import_key_panics_iff in E. discriminate.
+  - apply flag_nil in Hk. destruct (verify_row r) eqn:E; cbn [outcome_code]; try reflexivity.
+    rewrite (verify_row_panics_only_in_k2 r E) in Hk. discriminate.
+  - apply flag_nil in Hk.
+    apply (pool_run_ok (map (fun _ => false) rs) (map verify_row rs) _ default_parallelism_pos).
+    apply Forall2_map_same. intros r Hr. apply row_step_ok. apply (existsb_false_forall _ _ _ Hk r Hr).
+  - destruct (query_valid dm qs) eqn:Ev.
+    + rewrite (valid_query_executes dm qs Ev); [reflexivity|]. cbn [known_C14]. exact Hk.
+    + unfold query_outcome. destruct (resolve_query dm qs []); [destruct (forallb entity_executes l)|]; reflexivity.
+  - destruct (resolve_entity dm q) as [ce|] eqn:Er.
+    + apply app_eq_nil in Hk. destruct Hk as [H4 H7]. apply flag_nil in H4, H7.
+      destruct (size_spec dm q ce Er) as (Hp & Hs). specialize (Hp H4). specialize (Hs H7).
+      destruct (counts_entity ce) as [[a b] d] eqn:Ec. cbn [c3_list]. cbn [sel3 lp3 rp3 fst snd] in Hp, Hs.
+      cbn [Z.eqb]. subst d. unfold zn. rewrite Z.eqb_refl. cbn [andb]. apply Z.leb_le. lia.
+    + cbn [Z.eqb]. destruct (entity_valid dm q) eqn:Ev; [|reflexivity].
+      destruct (entity_valid_resolves dm q Ev) as (c & Hc). rewrite Hc in Er. discriminate.
+  - reflexivity.
+Qed.
+
+(* ------------------------------------------------------------------------------------------ *)
+(** * refutations: closed witnesses of what the unchanged code does *)
+
+Definition str_json : strc := {| s_b64 := false; s_json := true; s_uid := UNot16 |}.
+Definition k1_witness : mutation :=
+  {| m_decl := [(FJson, Nullable)]; m_vals := [(RField 0, MVar 1%N)]; m_params := [(1%N, PNull)] |}.
+Definition k1_literal_witness : mutation :=
+  {| m_decl := [(FJson, Nullable)]; m_vals := [(RField 0, MNull)]; m_params := [] |}.
+Definition ok_witness : mutation :=
+  {| m_decl := [(FJson, Nullable)]; m_vals := [(RField 0, MVar 1%N)]; m_params := [(1%N, PStr str_json)] |}.
+
+Lemma params_total_refuted_w :
+  mutation_valid k1_witness = true /\ mutate_outcome k1_witness = OPanic /\
+  mutation_valid k1_literal_witness = true /\ mutate_outcome k1_literal_witness = OPanic.
+Proof. vm_compute. auto. Qed.
+
+Lemma pool_exhausted_w :
+  run_C14 (CMutSeq [k1_witness; k1_witness; k1_witness; k1_witness; ok_witness]) = [2; 1; 2; 1; 2; 1; 2; 0; 1; 0]
+  /\ mutation_valid ok_witness = true.
+Proof. vm_compute. auto. Qed.
+
+Lemma key_import_refuted_w : forall pok, import_key [] pok = OPanic.
+Proof. reflexivity. Qed.
+
+Import String.
+Definition w_dm : dmodel :=
+  [ {| de_ns := cp "d"; de_name := cp "Person";
+       de_fields := [(cp "name", KScalar false false); (cp "pets", KRef true 1 true); (cp "order", KRef false 1 true);
+                     (cp "jd", KScalar true true)] |};
+    {| de_ns := cp "d"; de_name := cp "Pet"; de_fields := [(cp "name", KScalar false false)] |};
+    {| de_ns := cp "d"; de_name := cp "Tree"; de_fields := [(cp "name", KScalar false false); (cp "kids", KRef true 2 true); (cp "nn", KRef true 2 false)] |} ]%string.
+Definition w_q (alias : option ident) (search : option (list N)) (fs : list rfield) : rentity :=
+  {| re_alias := alias; re_ns := cp "d"; re_name := cp "Person"; re_search := search; re_fields := fs |}%string.
+Definition w_tree (fs : list rfield) : rentity :=
+  {| re_alias := None; re_ns := cp "d"; re_name := cp "Tree"; re_search := None; re_fields := fs |}%string.
+Fixpoint w_chain (field : ident) (d : nat) : rfield :=
+  match d with O => RNamed None (cp "name") | S k => RSub None field [w_chain field k] end.
+
+Lemma valid_executes_refuted_w :
+  let name := RNamed None (cp "name") in
+  (* alias that is an SQL keyword; reference field named order; digit first *)
+  (query_valid w_dm [w_q (Some (cp "group")) None [name]] = true /\ query_outcome w_dm [w_q (Some (cp "group")) None [name]] = OErr) /\
+  (query_valid w_dm [w_q None None [RSub None (cp "order") [name]]] = true /\ query_outcome w_dm [w_q None None [RSub None (cp "order") [name]]] = OErr) /\
+  (query_valid w_dm [w_q (Some (cp "1a")) None [name]] = true /\ query_outcome w_dm [w_q (Some (cp "1a")) None [name]] = OErr) /\
+  (* json selector on a Json field with a default: unbalanced parenthesis *)
+  (query_valid w_dm [w_q None None [RJson (cp "a") (cp "jd")]] = true /\ query_outcome w_dm [w_q None None [RJson (cp "a") (cp "jd")]] = OErr) /\
+  (* blank search text *)
+  (query_valid w_dm [w_q None (Some []) [name]] = true /\ query_outcome w_dm [w_q None (Some []) [name]] = OErr) /\
+  (* five array levels *)
+  (query_valid w_dm [w_tree [w_chain (cp "kids") 5]] = true /\ query_outcome w_dm [w_tree [w_chain (cp "kids") 5]] = OErr) /\
+  (* and the same requests with harmless spellings / shapes execute *)
+  query_outcome w_dm [w_q (Some (cp "grp")) (Some (cp "word")) [name; RSub (Some (cp "o")) (cp "order") [name]]] = OOk /\
+  query_outcome w_dm [w_tree [w_chain (cp "kids") 4]] = OOk.
+Proof. vm_compute. repeat split; reflexivity. Qed.
+
+(* statement size: a chain of d non-nullable array references compiles to 3 * 2^d - 1 SELECTs *)
+Fixpoint nn_chain (key : ident) (d : nat) : cfield :=
+  match d with O => CScalar false false false | S k => CSub key true false [nn_chain key k] end.
+
+Theorem blowup_exponential : forall key d, (tot (nn_chain key d) + 3 = 3 * 2 ^ N.of_nat d)%N.
+Proof.
+  intros key. induction d as [|d IH]; [reflexivity|].
+  cbn [nn_chain]. destruct (counts_sel_sub key true false [nn_chain key d]) as (H1 & H2).
+  unfold tot at 1. rewrite H1, H2. cbn [map sumN fold_right].
+  rewrite Nat2N.inj_succ, N.pow_succ_r'. lia.
+Qed.
+
+Lemma size_refuted_w :
+  run_C14 (CQSize w_dm (w_tree [w_chain (cp "nn") 10])) = [1; 3071; 6141; 6141]
+  /\ spec_C14 (CQSize w_dm (w_tree [w_chain (cp "nn") 10])) [1; 3071; 6141; 6141] = false
+  /\ entity_valid w_dm (w_tree [w_chain (cp "nn") 10]) = true.
+Proof. vm_compute. auto. Qed.
+
+(* the hypotheses of the theorems are satisfiable: cases outside every class, with every verdict *)
+Lemma nonvacuous_w :
+  known_C14 (CMut ok_witness) = [] /\ run_C14 (CMut ok_witness) = [0; 1] /\
+  known_C14 (CMutSeq [ok_witness; ok_witness]) = [] /\
+  known_C14 (CKey [1%N] true) = [] /\ run_C14 (CKey [1%N] true) = [1] /\
+  known_C14 (CRow (RowNode false JObject [1%N; 2%N] false 64 false)) = [] /\
+  known_C14 (CQuery w_dm [w_q (Some (cp "grp")) None [RNamed None (cp "name"); RSub None (cp "pets") [RNamed None (cp "name")]]]) = [] /\
+  query_valid w_dm [w_q (Some (cp "grp")) None [RNamed None (cp "name"); RSub None (cp "pets") [RNamed None (cp "name")]]] = true /\
+  known_C14 (CQSize w_dm (w_tree [w_chain (cp "nn") 1])) = [] /\
+  run_C14 (CQSize w_dm (w_tree [w_chain (cp "nn") 1])) = [1; 5; 9; 9].
+Proof. vm_compute. repeat split; reflexivity. Qed.
+
+(* ------------------------------------------------------------------------------------------ *)
+(** * sequences of requests against one instance *)
+
+Theorem sequences_keep_the_pool : forall ms, existsb k1_mutation ms = false ->
+  steps_ok (map mutation_valid ms) (pool_run default_parallelism (map mutate_outcome ms)) = true /\
+  pool_live default_parallelism (map mutate_outcome ms) = default_parallelism.
+Proof.
+  intros ms Hk. apply (pool_run_ok (map mutation_valid ms) (map mutate_outcome ms) _ default_parallelism_pos).
+  apply Forall2_map_same. intros m Hm. apply mutation_step_ok. apply (existsb_false_forall _ _ _ Hk m Hm).
+Qed.
+
+Theorem panics_exhaust_the_pool : forall os live,
+  Forall (fun o => o = OPanic) os -> (live <= N.of_nat (List.length os))%N -> pool_live live os = 0%N.
+Proof.
+  induction os as [|o os IH]; intros live Ho Hl; cbn [pool_live].
+  - cbn in Hl. lia.
+  - inversion Ho as [|? ? Hp Ho']; subst. unfold pool_step. destruct (N.eqb live 0) eqn:E; cbn [fst].
+    + clear - Ho'. induction os as [|o os IH]; cbn [pool_live]; [reflexivity|]. inversion Ho'; subst. cbn. apply IH. assumption.
+    + apply IH; [exact Ho'|]. apply N.eqb_neq in E. cbn [List.length] in Hl. lia.
+Qed.
+
+(* ------------------------------------------------------------------------------------------ *)
+(** * the arithmetic counters are the counters of the emitted token list *)
+
+Definition cnt3 (ts : list tok) : c3 := (count_tok is_sel ts, count_tok is_l ts, count_tok is_r ts).
+
+Lemma c3_ext : forall a b : c3, sel3 a = sel3 b -> lp3 a = lp3 b -> rp3 a = rp3 b -> a = b.
+Proof. intros [[a1 a2] a3] [[b1 b2] b3]; cbn; intros; subst; reflexivity. Qed.
+
+Lemma count_tok_app : forall p a b, count_tok p (a ++ b) = (count_tok p a + count_tok p b)%N.
+Proof. intros. unfold count_tok, nlen. rewrite filter_app, app_length. lia. Qed.
+
+Lemma cnt3_app : forall a b, cnt3 (a ++ b) = c3_add (cnt3 a) (cnt3 b).
+Proof. intros. unfold cnt3. rewrite !count_tok_app. reflexivity. Qed.
+
+Lemma cnt3_concat : forall ls, cnt3 (List.concat ls) = c3_sum (map cnt3 ls).
+Proof.
+  induction ls as [|a ls IH]; cbn [List.concat map c3_sum fold_right]; [reflexivity|].
+  rewrite cnt3_app, IH. reflexivity.
+Qed.
+
+Lemma c3_sum_ext : forall A (f g : A -> c3) l, (forall x, In x l -> f x = g x) -> c3_sum (map f l) = c3_sum (map g l).
+Proof.
+  induction l as [|a l IH]; intros H; cbn [map c3_sum fold_right]; [reflexivity|].
+  fold (c3_sum (map f l)). fold (c3_sum (map g l)). rewrite (H a (or_introl eq_refl)), IH; [reflexivity|].
+  intros; apply H; right; assumption.
+Qed.
+
+Theorem counts_are_token_counts : forall c parent,
+  cnt3 (fst (emit parent c)) = fst (counts c) /\ cnt3 (snd (emit parent c)) = snd (counts c).
+Proof.
+  induction c as [s b d|d|key arr nl subs IH] using cfield_ind'; intros parent.
+  - destruct s, b, d; split; reflexivity.
+  - destruct d; split; reflexivity.
+  - rewrite emit_sub_eq, counts_sub_eq. cbv zeta.
+    set (A := List.concat (map fst (map (emit key) subs))). set (B := List.concat (map snd (map (emit key) subs))).
+    set (Ac := c3_sum (map fst (map counts subs))). set (Bc := c3_sum (map snd (map counts subs))).
+    assert (HA : cnt3 A = Ac).
+    { unfold A, Ac. rewrite cnt3_concat, !map_map. apply c3_sum_ext. intros x Hx. rewrite Forall_forall in IH. apply (IH x Hx key). }
+    assert (HB : cnt3 B = Bc).
+    { unfold B, Bc. rewrite cnt3_concat, !map_map. apply c3_sum_ext. intros x Hx. rewrite Forall_forall in IH. apply (IH x Hx key). }
+    assert (Hbody : cnt3 (sub_body parent key A B) = c3_add (1, 1, 1)%N (c3_add Ac Bc)).
+    { unfold sub_body. rewrite !cnt3_app, HA, HB.
+      destruct Ac as [[a1 a2] a3], Bc as [[b1 b2] b3]. cbn. Show. f_equal; [f_equal|]; lia. }
+    cbn [fst snd]. split.
+    + destruct arr; rewrite !cnt3_app, Hbody; destruct (c3_add (1, 1, 1)%N (c3_add Ac Bc)) as [[x1 x2] x3]; cbn; f_equal; [f_equal| |f_equal|]; lia.
+    + destruct nl; [reflexivity|]. rewrite !cnt3_app, Hbody. destruct (c3_add (1, 1, 1)%N (c3_add Ac Bc)) as [[x1 x2] x3]. cbn. f_equal; [f_equal|]; lia.
+Qed.
+
+Theorem counts_entity_are_token_counts : forall c, cnt3 (emit_entity c) = counts_entity c.
+Proof.
+  intros c. unfold emit_entity, counts_entity. cbv zeta.
+  set (A := List.concat (map fst (map (emit (ce_alias c)) (ce_fields c)))). set (B := List.concat (map snd (map (emit (ce_alias c)) (ce_fields c)))).
+  set (Ac := c3_sum (map fst (map counts (ce_fields c)))). set (Bc := c3_sum (map snd (map counts (ce_fields c)))).
+  assert (HA : cnt3 A = Ac).
+  { unfold A, Ac. rewrite cnt3_concat, !map_map. apply c3_sum_ext. intros x Hx. apply (counts_are_token_counts x (ce_alias c)). }
+  assert (HB : cnt3 B = Bc).
+  { unfold B, Bc. rewrite cnt3_concat, !map_map. apply c3_sum_ext. intros x Hx. apply (counts_are_token_counts x (ce_alias c)). }
+  rewrite !cnt3_app, HA, HB. destruct Ac as [[a1 a2] a3], Bc as [[b1 b2] b3].
+  destruct (ce_search c); cbn; f_equal; [f_equal| |f_equal|]; lia.
+Qed.
